@@ -50,7 +50,11 @@ macro_rules! from_feel_number_into {
     impl TryFrom<&FeelNumber> for $l {
       type Error = DmntkError;
       fn try_from(value: &FeelNumber) -> Result<Self, Self::Error> {
-        return value.to_string().parse::<$l>().map_err(|_| err_number_conversion_failed());
+        // integers written with trailing zeros or a positive exponent (1.0, 1E+2) are brought to the exponent zero first
+        if !value.is_integer() {
+          return Err(err_number_conversion_failed());
+        }
+        return value.round(&FeelNumber::zero()).to_string().parse::<$l>().map_err(|_| err_number_conversion_failed());
       }
     }
   };
